@@ -37,6 +37,8 @@ func main() {
 		os.Exit(cmdWorker(os.Args[2:]))
 	case "replay":
 		os.Exit(cmdReplay(os.Args[2:]))
+	case "race":
+		os.Exit(sim.RaceMain(os.Args[2:]))
 	case "selftest":
 		os.Exit(sim.SelfTest(os.Args[2:]))
 	case "sites":
@@ -105,14 +107,14 @@ func cmdWorker(args []string) int {
 // ---- replay ----------------------------------------------------------------------
 
 type replayFile struct {
-	Property  string         `json:"property"`
-	Signature string         `json:"signature"`
-	Clause    string         `json:"clause"`
-	Detail    string         `json:"detail"`
-	Expected  string         `json:"expected,omitempty"`
-	Got       string         `json:"got,omitempty"`
-	Unseamed  bool           `json:"unseamed,omitempty"`
-	Scenario  *sim.Scenario  `json:"scenario"`
+	Property  string        `json:"property"`
+	Signature string        `json:"signature"`
+	Clause    string        `json:"clause"`
+	Detail    string        `json:"detail"`
+	Expected  string        `json:"expected,omitempty"`
+	Got       string        `json:"got,omitempty"`
+	Unseamed  bool          `json:"unseamed,omitempty"`
+	Scenario  *sim.Scenario `json:"scenario"`
 }
 
 func cmdReplay(args []string) int {
@@ -262,6 +264,17 @@ func cmdRun(args []string) int {
 		return 2
 	}
 
+	// C15: the -race companion (real goroutines, real disk, Go race detector)
+	var raceInfo map[string]any
+	if *prop == "C15" {
+		rv, info, code := raceLayer(*tier, *seed, *tmp, nw)
+		if code != 0 {
+			return code
+		}
+		raceInfo = info
+		total.Viol = append(total.Viol, rv...)
+	}
+
 	// classify violations
 	var known knownFile
 	if b, err := os.ReadFile(filepath.Join(*verif, "known_findings.json")); err == nil {
@@ -306,7 +319,7 @@ func cmdRun(args []string) int {
 			return 2
 		}
 		// the minimised file must fail the same way in a fresh process
-		if !v.Unseamed {
+		if !v.Unseamed && !strings.HasPrefix(sig, "race-detector:") {
 			outb, _ := exec.Command(self, "replay", "-quiet", "-file", path).CombinedOutput()
 			if !strings.Contains(string(outb), "REPLAY-SIGNATURE "+sig+"\n") {
 				fmt.Fprintf(os.Stderr, "twsim: replay of %s in a fresh process did not reproduce signature %q:\n%s\n", path, sig, tail(string(outb), 2000))
@@ -330,26 +343,26 @@ func cmdRun(args []string) int {
 		siteKinds[s.Kind]++
 	}
 	cov := map[string]any{
-		"evaluations":         total.Evals,
-		"distinct_nontrivial": len(total.Distinct),
-		"rule":                p.Rule(),
-		"samples":             samples,
-		"runs":                total.Runs,
-		"runs_planned":        runs,
-		"seeds":               fmt.Sprintf("VERIF_SEED=%d, run i uses H(seed, %s, i), i in [0,%d)", *seed, *prop, runs),
-		"runs_per_hour":       int(float64(total.Runs) / wall * 3600),
-		"sim_steps":           total.Steps,
-		"simulated_time":      "the code has no timers; simulated time is the step count (1 step = 1 simulated microsecond)",
-		"fault_counts_fired":  total.Faults,
-		"reach_probes":        total.Probes,
-		"workers":             nw,
-		"determinism_selfcheck": map[string]any{"runs_compared": compared, "second_process_gomaxprocs": 1, "ok": selfOK},
-		"instrumented_sites":  siteKinds,
-		"real_components":     []string{"textwire (root package), lexer, parser, ast, evaluator, object, token, fail, ctx, config, utils — compiled from /repo's working tree after the twinstr rewrite"},
-		"stub_components":     []string{"map iteration order (simrt.Keys)", "disk (simrt.MemFS)", "http.ResponseWriter (sim.SimWriter)", "wall clock and global math/rand (simrt.Now/Rand)", "goroutine scheduler (simrt.Sched: one runnable task at a time)"},
+		"evaluations":            total.Evals,
+		"distinct_nontrivial":    len(total.Distinct),
+		"rule":                   p.Rule(),
+		"samples":                samples,
+		"runs":                   total.Runs,
+		"runs_planned":           runs,
+		"seeds":                  fmt.Sprintf("VERIF_SEED=%d, run i uses H(seed, %s, i), i in [0,%d)", *seed, *prop, runs),
+		"runs_per_hour":          int(float64(total.Runs) / wall * 3600),
+		"sim_steps":              total.Steps,
+		"simulated_time":         "the code has no timers; simulated time is the step count (1 step = 1 simulated microsecond)",
+		"fault_counts_fired":     total.Faults,
+		"reach_probes":           total.Probes,
+		"workers":                nw,
+		"determinism_selfcheck":  map[string]any{"runs_compared": compared, "second_process_gomaxprocs": 1, "ok": selfOK},
+		"instrumented_sites":     siteKinds,
+		"real_components":        []string{"textwire (root package), lexer, parser, ast, evaluator, object, token, fail, ctx, config, utils — compiled from /repo's working tree after the twinstr rewrite"},
+		"stub_components":        []string{"map iteration order (simrt.Keys)", "disk (simrt.MemFS)", "http.ResponseWriter (sim.SimWriter)", "wall clock and global math/rand (simrt.Now/Rand)", "goroutine scheduler (simrt.Sched: one runnable task at a time)"},
 		"known_findings_matched": knownHit,
-		"toolchain":           runtime.Version(),
-		"exhaustive":          false,
+		"toolchain":              runtime.Version(),
+		"exhaustive":             false,
 	}
 	ev := map[string]any{
 		"property_id": *prop,
@@ -360,6 +373,9 @@ func cmdRun(args []string) int {
 		"assumptions": p.Assumptions(),
 		"wall_s":      wall,
 		"violations":  nviol,
+	}
+	if raceInfo != nil {
+		cov["race_companion"] = raceInfo
 	}
 	if extra := sim.ExtraEvidence[*prop]; extra != nil {
 		for k, v := range extra(total) {
@@ -379,6 +395,146 @@ func cmdRun(args []string) int {
 		return 2
 	}
 	return exit
+}
+
+// raceLayer runs the -race build of this binary on generated C15 scenarios.
+func raceLayer(tier string, seed uint64, tmp string, nw int) ([]*sim.Violation, map[string]any, int) {
+	bin := os.Getenv("TWSIM_RACE_BIN")
+	if bin == "" {
+		fmt.Fprintln(os.Stderr, "twsim: C15 needs the -race build of twsim (TWSIM_RACE_BIN)")
+		return nil, nil, 2
+	}
+	n := envInt("VERIF_RACE_SCENARIOS", map[string]int{"quick": 64, "thorough": 1600}[tier])
+	reps := map[string]int{"quick": 60, "thorough": 200}[tier]
+	type rres struct {
+		v    *sim.Violation
+		code int
+		err  string
+	}
+	results := make([]rres, n)
+	var wg sync.WaitGroup
+	sem := make(chan struct{}, nw)
+	for i := 0; i < n; i++ {
+		i := i
+		wg.Add(1)
+		sem <- struct{}{}
+		go func() {
+			defer wg.Done()
+			defer func() { <-sem }()
+			dir := filepath.Join(tmp, fmt.Sprintf("race-%d", i))
+			os.MkdirAll(dir, 0o755)
+			defer os.RemoveAll(dir)
+			v, code, msg := runRaceChild(bin, []string{"-seed", fmt.Sprint(seed), "-run", fmt.Sprint(i)}, dir, reps, []string{"2", "4", "16"}[i%3], seed, i)
+			results[i] = rres{v, code, msg}
+		}()
+	}
+	wg.Wait()
+	var out []*sim.Violation
+	races, div := 0, 0
+	for i, r := range results {
+		if r.code == 2 {
+			fmt.Fprintf(os.Stderr, "twsim: race child %d: trouble:\n%s\n", i, tail(r.err, 3000))
+			return nil, nil, 2
+		}
+		if r.v != nil {
+			out = append(out, r.v)
+			if r.code == 66 {
+				races++
+			} else {
+				div++
+			}
+		}
+	}
+	info := map[string]any{"scenarios": n, "goroutines": 8, "repetitions_per_goroutine": reps, "gomaxprocs": []int{2, 4, 16},
+		"race_reports": races, "divergences": div, "note": "real goroutines under the Go race detector; not schedule-controlled, reports are not bit-exactly replayable"}
+	return out, info, 0
+}
+
+func runRaceChild(bin string, args []string, dir string, reps int, gomaxprocs string, seed uint64, run int) (*sim.Violation, int, string) {
+	full := append([]string{"race", "-dir", dir, "-reps", fmt.Sprint(reps)}, args...)
+	cmd := exec.Command(bin, full...)
+	cmd.Env = append(os.Environ(), "GOMAXPROCS="+gomaxprocs, "GORACE=halt_on_error=1 exitcode=66")
+	b, err := cmd.CombinedOutput()
+	if err == nil {
+		return nil, 0, ""
+	}
+	code := 2
+	if ee, ok := err.(*exec.ExitError); ok {
+		code = ee.ExitCode()
+	}
+	text := string(b)
+	sc := &sim.Scenario{Prop: "C15", Seed: seed, Run: run, Family: "race-companion", Note: "generated by sim.genC15 from H(seed, C15race, run); re-run with: twsim(-race) race -seed <seed> -run <run>"}
+	switch code {
+	case 66:
+		a, bfn := raceFrames(text)
+		if a > bfn {
+			a, bfn = bfn, a
+		}
+		return &sim.Violation{Prop: "C15", Clause: "data race reported by the Go race detector while goroutines use the rendering entry points concurrently",
+			Sig: "race-detector:" + a + "~" + bfn, Detail: tail(firstRaceBlock(text), 2500), Scenario: sc, Unseamed: true}, 66, ""
+	case 3:
+		return &sim.Violation{Prop: "C15", Clause: "a call running on real concurrent goroutines returned something else than its sequential baseline",
+			Sig: "real-threads-diverge", Detail: tail(text, 2500), Scenario: sc, Unseamed: true}, 3, ""
+	}
+	if strings.Contains(text, "fatal error: concurrent map") {
+		return &sim.Violation{Prop: "C15", Clause: "the Go runtime detected concurrent map access", Sig: "race-detector:concurrent-map", Detail: tail(text, 2500), Scenario: sc, Unseamed: true}, 66, ""
+	}
+	return nil, 2, text
+}
+
+func firstRaceBlock(s string) string {
+	i := strings.Index(s, "WARNING: DATA RACE")
+	if i < 0 {
+		return s
+	}
+	s = s[i:]
+	if j := strings.Index(s, "=================="); j > 0 {
+		s = s[:j]
+	}
+	return s
+}
+
+// raceFrames extracts, for each of the two accesses of a race report, the
+// innermost frame inside the textwire module (not simrt, not the harness).
+func raceFrames(s string) (string, string) {
+	blk := firstRaceBlock(s)
+	var frames []string
+	cur := ""
+	inStack := false
+	for _, line := range strings.Split(blk, "\n") {
+		t := strings.TrimSpace(line)
+		switch {
+		case strings.HasPrefix(t, "Write at"), strings.HasPrefix(t, "Read at"), strings.HasPrefix(t, "Previous write at"), strings.HasPrefix(t, "Previous read at"):
+			if inStack {
+				frames = append(frames, cur)
+			}
+			inStack, cur = true, ""
+			if strings.Contains(t, "rite") {
+				cur = "w:"
+			} else {
+				cur = "r:"
+			}
+		case strings.HasPrefix(t, "Goroutine "):
+			if inStack {
+				frames = append(frames, cur)
+			}
+			inStack = false
+		case inStack && strings.Contains(t, "textwire/v2") && strings.HasSuffix(t, ")") && !strings.Contains(t, "/simrt.") && len(cur) == 2:
+			fn := t
+			if k := strings.LastIndex(fn, "("); k > 0 {
+				fn = fn[:k]
+			}
+			fn = strings.TrimPrefix(fn, "github.com/textwire/textwire/")
+			cur += fn
+		}
+	}
+	if inStack {
+		frames = append(frames, cur)
+	}
+	for len(frames) < 2 {
+		frames = append(frames, "?")
+	}
+	return frames[0], frames[1]
 }
 
 func sanitize(s string) string {
